@@ -412,6 +412,72 @@ func pollCapScenario(nTx, max int, sameBucket bool) func() func() []string {
 	}
 }
 
+// cleanScenario: the periodic Clean (expired entries are dropped bucket by bucket) running while two
+// peers announce, or deliver, a fresh transaction that lives in the same bucket as an expired one.
+// The fresh transaction must still be requested from exactly one of the two announcers and reach
+// the processor exactly once: cleaning must not lose what was inserted meanwhile.
+func cleanScenario(deliver bool) func() func() []string {
+	return func() func() []string {
+		txm := bitcoin_reader.NewTxManager(txTimeout)
+		proc := &txProc{}
+		txm.SetTxProcessor(proc)
+		txm.SetTxSaver(proc)
+		txm.GetTxRequests(bg, uuid.New(), 1) // stable lock names (see txScenario)
+		txs := sameBucketTxs(2)
+		old, fresh := txs[0], txs[1]
+		txm.AddTxID(bg, uuid.New(), *old.TxHash())
+		vsched.Advance(time.Hour)
+		cutoff := vsched.Now().Add(-30 * time.Minute)
+		interrupt := make(chan interface{})
+		ids := []uuid.UUID{uuid.New(), uuid.New()}
+		var answers [2]bool
+		var wg vsched.WaitGroup
+		for p := 0; p < 2; p++ {
+			p := p
+			wg.Add(1)
+			vsched.GoNamed(fmt.Sprintf("peer%d", p), func() {
+				defer wg.Done()
+				if deliver {
+					txm.AddTx(bg, interrupt, ids[p], fresh)
+				} else {
+					answers[p], _ = txm.AddTxID(bg, ids[p], *fresh.TxHash())
+				}
+			})
+		}
+		wg.Add(1)
+		vsched.GoNamed("cleaner", func() {
+			defer wg.Done()
+			txm.Clean(bg, cutoff)
+		})
+		vsched.GoNamed("closer", func() {
+			wg.Wait()
+			txm.Stop(bg)
+			txm.Run(bg) // the consumer, after the producers (see txScenario)
+		})
+		return func() []string {
+			var problems []string
+			if deliver {
+				n := 0
+				for _, id := range proc.processed {
+					if id == *fresh.TxHash() {
+						n++
+					}
+				}
+				if n != 1 {
+					problems = append(problems, fmt.Sprintf("processed-count: the transaction delivered by two peers while Clean ran reached the processor %d times", n))
+				}
+				label(fmt.Sprintf("processed=%d", n))
+			} else {
+				if answers[0] == answers[1] {
+					problems = append(problems, fmt.Sprintf("announce-during-clean: two announcers of one fresh transaction were answered request=%t and request=%t", answers[0], answers[1]))
+				}
+				label(fmt.Sprintf("first=%t second=%t", answers[0], answers[1]))
+			}
+			return problems
+		}
+	}
+}
+
 func c06Scenarios(thorough bool) []*scenario {
 	var r []*scenario
 	scripts := [][]string{{"A0"}, {"D0"}, {"A0", "D0"}, {"D0", "A0"}, {"A0", "A0"}, {"D0", "D0"}}
@@ -455,6 +521,9 @@ func c06Scenarios(thorough bool) []*scenario {
 			}
 		}
 	}
+	// Clean running next to the handlers: ~770 scheduling points per Clean (256 buckets), bound 1
+	r = append(r, &scenario{name: "txmanager/clean-while-announcing", bounds: []int{0, 1}, body: cleanScenario(false), steps: 50000})
+	r = append(r, &scenario{name: "txmanager/clean-while-delivering", bounds: []int{0, 1}, body: cleanScenario(true), steps: 50000})
 	if thorough {
 		add(txScript{peers: [][]string{{"A0", "A0"}, {"A0"}}, poll: []int{1, 1}, adv: true})
 		add(txScript{peers: [][]string{{"A0", "A1"}, {"A1", "A0"}}, poll: []int{0, 1}, adv: true})
